@@ -72,6 +72,13 @@ func (b *buffer) get(v wireType) {
 		return
 	}
 	b.i += v.width()
+	if b.i > len(b.data) {
+		// width is that of the value now held by v, which may be wider
+		// than what was read, e.g. a zero length string leaves a
+		// previous value in place
+		b.i = len(b.data)
+		b.err = ErrMissingData
+	}
 }
 
 func (b *buffer) atEnd() bool {
